@@ -55,6 +55,10 @@ MUTANTS = [
     {"id": "neutral/popf-reorder", "kind": "neutral", "props": ["C04", "C07"], "edits": [
         {"file": P + "instr/opcodes.py", "old": "        il.append(il.set_flag(CFlag, il.and_expr(1, tmp.lift(il), il.const(1, 1))))\n        il.append(il.set_flag(ZFlag, il.and_expr(1, tmp.lift(il), il.const(1, 2))))", "new": "        il.append(il.set_flag(ZFlag, il.and_expr(1, tmp.lift(il), il.const(1, 0x02))))\n        il.append(il.set_flag(CFlag, il.and_expr(1, tmp.lift(il), il.const(1, 0x01))))"}]},
 
+    {"id": "neutral/lcd-renderer-segment-loop", "kind": "neutral", "props": ["C15"], "edits": [
+        {"file": "pce500/display/hd61202.py", "old": "    image.paste(images[1].crop((0, 0, right_width, height)), (0, 0))\n", "new": "    upper_right = images[1].crop((0, 0, right_width, height))\n    image.paste(upper_right, (0, 0))\n"},
+        {"file": "pce500/display/hd61202.py", "old": "            self.vram[self.state.page][self.state.y_address] = data\n", "new": "            page, col = self.state.page, self.state.y_address\n            self.vram[page][col] = data\n"}]},
+
     # --- Rust-side changes (the crate is not compiled by the tests, so only static analysis sees them) ----------------
     {"id": "break/rust-and-writes-carry", "kind": "break", "props": ["C06"], "expect": "C06.7/flag-signature", "edits": [
         {"file": "sc62015/core/src/llama/eval.rs", "old": "                    InstrKind::And => ((lhs_val & rhs_val) & mask, None),", "new": "                    InstrKind::And => ((lhs_val & rhs_val) & mask, Some(false)),"}]},
